@@ -27,6 +27,8 @@ class C08Spec(explore.Spec):
         extra = [
             ("set", 1, 0, 2, "0"),
             ("set", 1, 0, 2, "1"),
+            ("set", 1, 0, 2, 0),  # values that are falsy in Python are still values
+            ("set", 1, 1, 0, ""),
             ("set", 1, 0, "2", "0"),
             ("set", 1, 1, 22, "Max"),
             ("set", 1, 1, 22, "1"),
